@@ -88,7 +88,7 @@ Request(f, c) ==
 Answer(x) ==
     /\ x \in atRep
     /\ atRep' = atRep \ {x}
-    /\ LET owners == {<<f, c>> \in Families \X Clones : live[f] = "open" /\ sgen[f][c] = conn[f] /\ scid[f][c] = x.cid} IN
+    /\ LET owners == {o \in Families \X Clones : live[o[1]] = "open" /\ sgen[o[1]][o[2]] = conn[o[1]] /\ scid[o[1]][o[2]] = x.cid} IN
        IF x.cid \in srvLive /\ owners # {}
        THEN LET f == (CHOOSE o \in owners : TRUE)[1]
                 hit == {p \in pending[f] : p[1] = x.rid} IN
